@@ -62,6 +62,51 @@ fn small_trees() -> Vec<RV> {
     t.into_iter().flatten().collect()
 }
 
+/// Long atoms of every text-carrying kind with multi-byte characters at every alignment: error
+/// messages quote the offending value, and anything that cuts text at a byte offset must cut on a
+/// character boundary (seed C18-c); long byte vectors and huge / tiny numbers for the same reason.
+fn long_atoms() -> Vec<RV> {
+    let mut texts: Vec<String> = Vec::new();
+    for (unit, width) in [("é", 2usize), ("€", 3), ("😀", 4)] {
+        for pad in 0..width {
+            texts.push(format!("{}{}", "a".repeat(pad), unit.repeat(300)));
+        }
+    }
+    texts.push("x".repeat(5000));
+    let mut v = Vec::new();
+    for t in &texts {
+        v.push(RV::Str(t.clone()));
+        v.push(RV::Sym(t.clone()));
+        v.push(RV::Kw(t.clone()));
+    }
+    v.push(RV::Bytes((0..5000).map(|i| (i * 13) as u8).collect()));
+    v.push(RV::Float(1.7976931348623157e308));
+    v.push(RV::Float(-5e-324));
+    v.push(RV::Int(u64::MAX as i128));
+    v.push(RV::Int(i64::MIN as i128));
+    v.push(RV::Char('\u{10FFFF}'));
+    v
+}
+
+/// A long atom in every position a visitor can meet it.
+fn long_atom_contexts(a: &RV) -> Vec<RV> {
+    let k = RV::sym("f");
+    vec![
+        a.clone(),
+        RV::list(vec![a.clone()]),
+        RV::Vector(vec![a.clone()]),
+        RV::list(vec![a.clone(), a.clone()]),
+        RV::cons(RV::sym("N"), a.clone()),
+        RV::cons(a.clone(), RV::Int(1)),
+        RV::list(vec![RV::cons(k.clone(), a.clone())]),
+        RV::list(vec![RV::cons(a.clone(), RV::Int(1))]),
+        RV::list(vec![RV::sym("S"), RV::cons(k.clone(), a.clone())]),
+        RV::list(vec![RV::cons(RV::sym("f"), a.clone()), RV::cons(RV::sym("g"), a.clone())]),
+        RV::list(vec![RV::Int(7), a.clone()]),
+        RV::append(vec![RV::Int(7)], a.clone()),
+    ]
+}
+
 /// Single mutations of a valid encoding.
 fn mutants(e: &RV) -> Vec<RV> {
     // enumerate node paths
@@ -211,6 +256,16 @@ pub fn replay(sub: &str, case: &J, acc: &mut Acc) {
     }
     let want = case["value"].as_str().unwrap_or("");
     let thorough = case["thorough"].as_bool().unwrap_or(false);
+    if sub == "long-atoms" {
+        let mut vals: Vec<RV> = Vec::new();
+        for a in long_atoms() {
+            vals.extend(long_atom_contexts(&a));
+        }
+        if let Some(v) = vals.get(case["long_atom_index"].as_u64().unwrap_or(0) as usize) {
+            judge(acc, sub, 0, &*fam[t], v, &|| case.clone());
+        }
+        return;
+    }
     if sub == "small-trees" {
         if let Some(v) = small_trees().iter().find(|v| v.to_string() == want) {
             judge(acc, sub, 0, &*fam[t], v, &|| case.clone());
@@ -248,6 +303,20 @@ pub fn run(ctx: &Ctx) -> Report {
             let t = (rank % nt) as usize;
             acc.sample(rank, || format!("{} as {}", v, fam[t].name()));
             judge(acc, "small-trees", rank, &*fam[t], v, &|| json!({"type": t, "value": v.to_string()}));
+        });
+        rep.absorb(sub, accs);
+    }
+    if ctx.want("long-atoms") {
+        let mut vals: Vec<RV> = Vec::new();
+        for a in long_atoms() {
+            vals.extend(long_atom_contexts(&a));
+        }
+        let sub = Sub::new("long-atoms", "long strings, symbols and keywords made of 2-, 3- and 4-byte characters at every byte alignment (and 5000 ASCII characters), a 5000-octet byte vector, extreme numbers and U+10FFFF, each alone and as list / vector element, newtype-variant payload, map key, map value, struct-variant field, struct field, tuple element and dotted tail x every type of the family: same oracle (no panic, Data-category error or self-consistent value); non-trivial = accepted", &format!("{} values x {} types", vals.len(), nt));
+        let accs = par_ranks(vals.len() as u64 * nt, |rank, acc| {
+            let vi = (rank / nt) as usize;
+            let t = (rank % nt) as usize;
+            acc.sample(rank, || format!("{} as {}", crate::util::trunc(&vals[vi].to_string(), 40), fam[t].name()));
+            judge(acc, "long-atoms", rank, &*fam[t], &vals[vi], &|| json!({"type": t, "long_atom_index": vi}));
         });
         rep.absorb(sub, accs);
     }
